@@ -2,6 +2,7 @@ package main
 
 import (
 	"go/token"
+	"go/types"
 	"sort"
 	"strings"
 
@@ -423,3 +424,164 @@ var _ = late(func() {
 			}
 		}})
 })
+
+// nextOfReturnedType: the Next method of the (pointer to) struct type a constructor returns.
+func nextOfReturnedType(c *Ctx, ctor *ssa.Function) (*ssa.Function, *ssa.Alloc) {
+	var next *ssa.Function
+	var lit *ssa.Alloc
+	instrs(ctor, func(_ *ssa.BasicBlock, _ int, in ssa.Instruction) {
+		ret, ok := in.(*ssa.Return)
+		if !ok || len(ret.Results) != 1 {
+			return
+		}
+		for _, lf := range valueLeaves(returnedValue(ret, 0), nil, 0) {
+			v := lf.v
+			if mi, ok := v.(*ssa.MakeInterface); ok {
+				v = mi.X
+			}
+			nt, ok := origType(derefType(v.Type())).(*types.Named)
+			if !ok {
+				continue
+			}
+			if al, ok := v.(*ssa.Alloc); ok {
+				lit = al
+			}
+			for _, f := range c.Funcs {
+				if f.Parent() == nil && f.Name() == "Next" && f.Signature.Recv() != nil {
+					if rt, ok := origType(derefType(f.Signature.Recv().Type())).(*types.Named); ok && rt.Obj() == nt.Obj() {
+						next = f
+					}
+				}
+			}
+		}
+	})
+	return next, lit
+}
+
+// C15.iter-watches-container: the iterator that Iterate builds keeps a pointer to THE container (the receiver), so that its
+// generation test sees every later modification. With a value receiver (or a copy taken in Iterate) the iterator watches a
+// private copy whose generation never changes while the copied slice header still aliases the live backing array: the
+// modification check can never fire.
+// C15.iter-reads-live / C04.iter-reads-live: dequeIterator.Next reads a slot of the ring buffer only when the deque holds items
+// (Len() != 0 on the watched deque, or the equivalent count-down snapshot): a drained deque keeps its buffer (back == -1,
+// len(a) > 0), so testing the buffer's size instead lets the iterator walk zeroed slots for ever.
+var _ = late(func() {
+	watch := func(c *Ctx, r *R) {
+		for _, an := range []struct{ ctor, short string }{{"internal/heap.Heap.Iterate", "heap.Heap.Iterate"}, {"container/deque.Deque.Iterate", "deque.Deque.Iterate"}} {
+			fn := c.fn(an.ctor)
+			if fn == nil {
+				r.undecided(an.short+"|missing", token.NoPos, "anchor not found")
+				continue
+			}
+			recv := fn.Params[0]
+			_, isPtr := recv.Type().Underlying().(*types.Pointer)
+			contT := origType(derefType(recv.Type()))
+			// the container pointers stored into the iterator (deep: the literal may be built by a helper)
+			n, good, why := 0, isPtr, ""
+			if !isPtr {
+				why = "Iterate has a value receiver: the iterator can only see a copy"
+			}
+			for _, di := range deepInstrs(fn, 2) {
+				st, ok := di.in.(*ssa.Store)
+				if !ok {
+					continue
+				}
+				if _, isFA := st.Addr.(*ssa.FieldAddr); !isFA {
+					continue
+				}
+				pt, ok := st.Val.Type().Underlying().(*types.Pointer)
+				if !ok || !types.Identical(origType(pt.Elem()), contT) {
+					continue
+				}
+				n++
+				for _, lf := range valueLeaves(argOf(st.Val, di.calls), di.calls, 0) {
+					if resolveVal(lf.v) != ssa.Value(recv) {
+						good = false
+						why = "the iterator is given " + path(lf.v) + ", not the receiver"
+					}
+				}
+			}
+			r.ok(good && n > 0, an.short+"|watches-receiver", fn.Pos(), "the iterator must keep a pointer to the container itself (the pointer receiver of Iterate), otherwise its generation test compares against a copy that never changes: "+why)
+		}
+	}
+	live := func(c *Ctx, r *R) {
+		ctor := c.fn("container/deque.Deque.Iterate")
+		if ctor == nil {
+			r.undecided("deque.Deque.Iterate|missing", token.NoPos, "anchor not found")
+			return
+		}
+		next, _ := nextOfReturnedType(c, ctor)
+		if next == nil {
+			r.undecided("deque.Deque.Iterate|next", ctor.Pos(), "the iterator's Next was not found")
+			return
+		}
+		n := 0
+		for _, di := range deepInstrs(next, 1) {
+			ia, ok := di.in.(*ssa.IndexAddr)
+			if !ok || len(di.calls) > 0 {
+				continue
+			}
+			// an element of the deque's buffer: <iter>.<d>.a[...]
+			pv := valueProv(ia.X, provEnv{})
+			if len(pv.fields) < 2 || !isNamedTypeDeep(fieldOwnerType(ia.X), "container/deque", "Deque") {
+				continue
+			}
+			dP := prov{root: pv.root, fields: pv.fields[:len(pv.fields)-1]}
+			n++
+			okLive := false
+			b := ia.Block()
+			// Len() != 0 on the watched deque
+			for _, g := range guardsOf(b) {
+				cf, ok := g.asCmp()
+				if !ok {
+					continue
+				}
+				x, y, op := cf.x, cf.y, cf.op
+				isLen := func(v ssa.Value) bool {
+					call, ok := resolveVal(v).(*ssa.Call)
+					if !ok {
+						return false
+					}
+					cal := staticCallee(&call.Call)
+					return cal != nil && fname(cal) == "Len" && len(call.Call.Args) == 1 && valueProv(call.Call.Args[0], provEnv{}).String() == dP.String()
+				}
+				if isLen(y) {
+					x, y, op = y, x, flip(op)
+				}
+				if !isLen(x) {
+					continue
+				}
+				if k, ok := resolveVal(y).(*ssa.Const); ok && k.Value != nil {
+					kv := k.Int64()
+					if (op == token.NEQ && kv == 0) || (op == token.GTR && kv >= 0) || (op == token.GEQ && kv >= 1) {
+						okLive = true
+					}
+				}
+			}
+			if !okLive && snapshotCounterEvidence(c, next, guardsOf(b), dP) {
+				okLive = true
+			}
+			r.ok(okLive, "deque.dequeIterator.Next|reads-live-slot#"+itoa(n), ia.Pos(), "a slot of the ring buffer is read without a dominating test that the deque holds items (Len() != 0): a drained deque keeps its buffer, so the iterator yields zeroed slots and never reaches its end")
+		}
+		if n == 0 {
+			r.undecided("deque.dequeIterator.Next|reads-live-slot", next.Pos(), "no read of the deque's buffer found in the iterator's Next")
+		}
+	}
+	properties["C15"].Rules = append(properties["C15"].Rules,
+		&Rule{ID: "C15.iter-watches-container", Floor: 2, Clause: "Heap.Iterate and Deque.Iterate have pointer receivers and store that receiver into the iterator they build: the generation test of the iterator looks at the container itself, not at a copy made when iteration started", Run: watch},
+		&Rule{ID: "C15.iter-reads-live", Floor: 1, Clause: "dequeIterator.Next reads a slot of the ring buffer only under Len() != 0 of the watched deque (or the equivalent count-down snapshot): an emptied deque keeps its buffer, so a test of the buffer's size does not end the iteration", Run: live})
+	properties["C04"].Rules = append(properties["C04"].Rules,
+		&Rule{ID: "C04.iter-reads-live", Floor: 1, Clause: "same rule as C15.iter-reads-live: Iterate over a drained deque yields nothing - the iterator reads a slot only under Len() != 0, not under len(buffer) != 0", Run: live})
+})
+
+func fieldOwnerType(addr ssa.Value) types.Type {
+	if fa, ok := addr.(*ssa.FieldAddr); ok {
+		return fa.X.Type()
+	}
+	if ld, ok := addr.(*ssa.UnOp); ok {
+		if fa, ok := ld.X.(*ssa.FieldAddr); ok {
+			return fa.X.Type()
+		}
+	}
+	return nil
+}
